@@ -49,8 +49,8 @@ MUTANTS = [
     M("c17-revert-pool-close", "C17", "(*) ThreadPoolServer.close() leaves the connections in fd_to_conn alone again",
       (S, "        for fd in list(self.fd_to_conn):\n            self._drop_connection(fd)\n", "        pass\n")),
     M("c17-revert-pool-rejected-entry", "C17", "(*) thread pool: the socket of a client that failed authentication stays in server.clients",
-      (S, "            self.logger.exception(err_msg)\n            sock.close()\n            self.clients.discard(sock)",
-          "            self.logger.exception(err_msg)\n            sock.close()")),
+      (S, "            sock.close()\n            self.clients.discard(sock)\n            # the authenticator may have handed back another socket object than the accepted one\n            self.clients.discard(accepted)\n",
+          "            sock.close()\n")),
     M("c17-threaded-keeps-dup", "C17", "ThreadedServer keeps a duplicate descriptor of every accepted socket in a list",
       (S, "        spawn(self._authenticate_and_serve_client, sock)",
           '        self.__dict__.setdefault("_accepted", []).append(sock.dup())\n        spawn(self._authenticate_and_serve_client, sock)')),
